@@ -571,6 +571,11 @@ static void run(const Case &c, Ctx &ctx) {
             PBT_CHECK(err == AWS_ERROR_INVALID_XML, "document over a limit (%s): error %s instead of AWS_ERROR_INVALID_XML", m.why,
                       ename(err).c_str());
         }
+    } else if (rc == AWS_OP_ERR && err == AWS_ERROR_INVALID_XML && rs.next <= (size_t)victim && m.exp[rs.next].subtree_end > (size_t)victim) {
+        // rejected before reporting the element without closing tag, or an ancestor of it (whose subtree is the malformed
+        // part): a parser that verifies an element's end tag before it hands the element to the callback does this, and
+        // it is "rejected with an error instead of being mis-reported".  The events before were compared in the callback.
+        ctx.tag("missing_close_tag_rejected_before_the_element_is_reported");
     } else {
         PBT_CHECK(rs.next >= rs.constrained, "closing tag removed: only %zu of the %zu event(s) before it were delivered", rs.next,
                   rs.constrained);
